@@ -561,14 +561,14 @@ pub fn run(mut ctx: Ctx) -> ! {
         Part::new(
             "crash_histories",
             "histories of 1-10 steps (publish, await processed, prune with/without body, import of 1-3 operations of 2 foreign authors incl. body-less ones, recv, explicit ack, pause) on a file-backed node in a child process, Explicit or Automatic policy, abort() after a generated step (or clean drop); parent re-opens and compares the replay with cursor and store; non-trivial = a stored un-acknowledged operation with a body exists at restart",
-            60,
+            96,
             4_000,
         )
         .workers(8, 16)
         .min_nontrivial(0.2),
         move || {
             let max = if thorough { 14 } else { 10 };
-            (
+            let random = (
                 prop::bool::weighted(0.6),
                 prop::collection::vec(step(), 3..=max),
                 // Crash points biased towards the later part of the history.
@@ -578,7 +578,51 @@ pub fn run(mut ctx: Ctx) -> ! {
                     explicit_policy,
                     steps,
                     crash_raw,
-                })
+                });
+            // Structured histories: deliver and acknowledge a prefix, then produce more
+            // operations and crash late – the shape in which the cursor sits strictly inside a
+            // log at restart (acknowledged operations below it, unacknowledged ones above).
+            let structured = (
+                prop::bool::weighted(0.75),
+                1usize..=3,
+                prop::collection::vec(any::<u16>(), 1..=2),
+                prop::collection::vec(
+                    prop_oneof![
+                        3 => Just(Step::Publish),
+                        1 => (0u8..2, 0u8..3, Just(false)).prop_map(|(f, n, bodyless)| Step::Import { f, n, bodyless }),
+                        1 => Just(Step::Recv),
+                        1 => Just(Step::AwaitProcessed),
+                    ],
+                    1..=4,
+                ),
+                any::<bool>(),
+                50_000u16..=u16::MAX,
+            )
+                .prop_map(|(explicit_policy, first, acks, tail, import_first, crash_raw)| {
+                    let mut steps = Vec::new();
+                    if import_first {
+                        steps.push(Step::Import { f: 0, n: 1, bodyless: false });
+                    }
+                    for _ in 0..first {
+                        steps.push(Step::Publish);
+                    }
+                    for _ in 0..first {
+                        steps.push(Step::AwaitProcessed);
+                    }
+                    for _ in 0..first + usize::from(import_first) * 2 {
+                        steps.push(Step::Recv);
+                    }
+                    for a in acks {
+                        steps.push(Step::Ack(a));
+                    }
+                    steps.extend(tail);
+                    Case {
+                        explicit_policy,
+                        steps,
+                        crash_raw,
+                    }
+                });
+            prop_oneof![1 => random, 1 => structured]
         },
         move |case| check(case, &tmp2),
     );
